@@ -244,7 +244,7 @@ def make_cuts(rng, g, part, kinds=('$', '><'), labels=None):
 # G-render
 
 RING_POOL = [1, 2, 3, 4, 5, 6, 7, 8, 9, 10, 11, 12, 23, 45, 99]
-DESC_SYM = {0: '.', 1: '', 2: '=', 3: '#', 4: '$'}
+DESC_SYM = {0: '.', 1: '', 2: '=', 3: '#', 4: '$', 1.5: ':'}
 
 
 def atom_text(d, hcount, bracket=False):
